@@ -5,6 +5,7 @@ import (
 	"bytes"
 	"encoding/hex"
 	"fmt"
+	"hash/fnv"
 	"math"
 	"os"
 	"sort"
@@ -968,15 +969,21 @@ func runC13(seed uint64, ncases int, outPath string, replay string) {
 	progress, _ := os.Create(outPath + ".progress")
 	defer progress.Close()
 	st := &c12Stats{hist: map[string]int{}, fails: map[string]string{}, failSize: map[string]int{}, failReplay: map[string]string{}}
-	seen := map[string]bool{}
+	seen := map[uint64]bool{}
 	master := &rng{s: seed ^ 0xC13C13}
 
 	evaluate := func(in c13Input) {
 		st.evaluations++
 		eid := encNames[in.enc]
-		key := eid + ":" + string(in.data)
+		hsh := fnv.New64a()
+		hsh.Write([]byte(eid))
+		hsh.Write(in.data)
+		key := hsh.Sum64()
 		fresh := !seen[key]
 		seen[key] = true
+		// the input is logged before the call: a process death is attributed to it (one line, overwritten)
+		progress.Seek(0, 0)
+		progress.Truncate(0)
 		fmt.Fprintf(progress, "%s %s %s\n", in.id, eid, hex.EncodeToString(in.data))
 		replayObj := fmt.Sprintf("%s %s", eid, hex.EncodeToString(in.data))
 		tree, uerr := unmarshalAs(in.data, in.enc)
